@@ -62,5 +62,12 @@ CLAIMED["C16"] = dict(
     technique="TLA+ Files model checked by TLC; enumerated requests + TLC-generated histories against the real HTTP handlers; TLC-evaluated clauses + model conformance on recorded steps",
 )
 
+CLAIMED["C17"] = dict(
+    category="model_checking",
+    text="Ring: TLC checks the transcribed Ring.Add/Get/Signature (RingRef.tla, arbitrary hash function) for ALL hash assignments over small hash spaces and 1..4 nodes x 2 replicas (order independence, totality, minimal movement, signature equal iff same ring); the Go recorder injects the same hash tables and seeded/default-CRC32 rings into the REAL ringhash and the real Cluster.rehash / Route / TopicMaster signature gate; TLC evaluates the laws and the conformance on the recorded outputs. Election: TLC model-checks Election.tla (one action per Cluster.run case and per step of sendHealthChecks/electLeader; lossy, reordering, duplicating RPC network with at most one outcome per call) exhaustively for 3 nodes and by simulation for 4-5 (OneLeaderPerTerm, OneVotePerTerm, TermMonotone, LeaderHasMajorityOfConfigured, HealthAdopts, StaleIgnored, MinorityLeaderStopsServing), generates schedules, and 3-5 REAL Cluster values (real run goroutines, real electLeader/sendHealthChecks/Vote/Health handlers, real net/rpc clients over an in-process wire the harness controls) are driven through them; TLC evaluates the laws on the recorded (node, term, leader, votes, ring) observations and follows every trace with Step(recorded event).",
+    note="Trusted: hash/crc32; a ring is identified with its member set in the election model (justified by the ring half); the ticker dispatch of Cluster.run, gob encoding and real TCP, node restarts (the property speaks of nodes that kept their state) are not exercised; 4-5 node clusters are simulated, not exhausted.",
+    technique="TLA+ RingRef + Election models checked by TLC; TLC-generated hash tables and RPC schedules driven into the real ring and real Cluster loops; TLC-evaluated laws + step-by-step trace following",
+)
+
 _ALL = ["C%02d" % i for i in range(1, 21)]
 NOT_APPLICABLE = {p: "check not built yet in this round (work in progress; the technique applies, see DESIGN.md §5)" for p in _ALL if p not in CLAIMED}
